@@ -154,6 +154,14 @@ func ParseExpandedNodeID(s string, ns []string) (*ExpandedNodeID, error) {
 		nsval, idval = "ns=0", p[0]
 	case 2:
 		nsval, idval = p[0], p[1]
+		// A namespace 0 identifier is rendered without a namespace part
+		// (e.g. "s=a;b") and may itself contain a ';'.
+		for _, prefix := range []string{"s=", "i=", "g=", "b="} {
+			if strings.HasPrefix(p[0], prefix) {
+				nsval, idval = "ns=0", s
+				break
+			}
+		}
 	}
 
 	// parse namespace
